@@ -44,7 +44,12 @@ func emitEval(o *Out, text string, off int, hosts, data string, nontrivial bool)
 		o.Fail(line, f)
 	}
 	// the typed twin: the same case with every array / nested map of the data as a typed slice / typed map
-	if data != "-" && !inTwin && (strings.Contains(data, " A") || strings.Contains(data[1:], " O")) {
+	// (not for == / !=: Go's equality of two slices or maps depends on whether their types are identical - a
+	// run-time panic - or different - false -, which the model's arrays do not record)
+	// Only in the suites whose formulas read members of, or pass on, such values (names, bridge): operators applied
+	// to an array or map itself may legitimately tell []interface{} from []int (the code switches on the exact type)
+	if data != "-" && twinsEnabled && !inTwin && !strings.Contains(text, "==") && !strings.Contains(text, "!=") &&
+		(strings.Contains(data, " A") || strings.Contains(data[1:], " O")) {
 		twinCount++
 		if twinCount%3 == 0 {
 			tw := typedTwin(data)
@@ -59,8 +64,9 @@ func emitEval(o *Out, text string, off int, hosts, data string, nontrivial bool)
 }
 
 var (
-	inTwin    bool
-	twinCount int
+	inTwin       bool
+	twinCount    int
+	twinsEnabled bool
 )
 
 // typedTwin rewrites A<n> to Z<n> everywhere and O<n> to Y<n> below the top level
@@ -985,6 +991,8 @@ var bridgeArgVals = []string{"N", "T", "F", "Ii:0", "Ii:5", "D-:25:-1", "D+:3:0"
 var bridgeTypes = []string{"s", "b", "i", "i8", "i16", "i32", "i64", "f32", "f64", "a", "d", "t", "[s", "[d", "[a", "[i", "{a", "{s", "u8", "Ns", "Nb", "Ni", "Ni32", "Ni64", "Nf32", "Nf64", "Na", "N[s", "[Ns", "[Ni64", "{Ns"}
 
 func suiteBridge(o *Out, thorough bool, seed int64) {
+	twinsEnabled = true
+	defer func() { twinsEnabled = false }()
 	r := newRand(seed, "bridge")
 	emit := func(h hostSpec, args []string, spread bool) {
 		hosts := h.String()
@@ -1072,6 +1080,8 @@ func suiteBridge(o *Out, thorough bool, seed int64) {
 // ---------- C16 ----------
 
 func suiteNames(o *Out, thorough bool, seed int64) {
+	twinsEnabled = true
+	defer func() { twinsEnabled = false }()
 	inner := wmap("k", "Ii:1", "z", "Ii:0", "s", ws("str"), "n", "N", "p", "P", "b", "F", "deep", wmap("k", "Ii64:-5", "f", "G"+hx([]byte("2.5")), "u", "Iu8:3"))
 	data := wmap("a", inner, "b", wmap("a", inner), "n", "N", "p", "P", "len", "Ii:99", "max", ws("shadow"), "num", "Ii32:7", "str", ws("x"),
 		"t", "M0:0", "arr", "A1 Ii:1", "i8", "Ii8:5", "f", "G"+hx([]byte("0.25")), "tr", "T",
